@@ -20,6 +20,14 @@ fn main() {
     ctx.run_slice(Slice::new(format!("glue-edges[{} x {}]", sl.name(), sr.name()), ul.len() as u64 * n, |i, loc| {
         check_pair::<B>(&ul[(i / n) as usize], &ur[(i % n) as usize], loc)
     }));
+    // other label types: zero-sized labels (types differ only in length) and strings; all pairs of a smaller universe
+    let (ulo, uro) = (Spec::open(2, 1, 1, 2, 2, 1, 2).universe().all_open(), Spec::open(2, 1, 1, 2, 2, 2, 1).universe().all_open());
+    let no = uro.len() as u64;
+    ctx.run_slice(Slice::new(format!("glue-edges-unit-and-string-labels[{} x {} diagrams]", ulo.len(), no), ulo.len() as u64 * no, |i, loc| {
+        let (f, g) = (&ulo[(i / no) as usize], &uro[(i % no) as usize]);
+        ohmc::props::c01::check_pair_over::<B, (), ()>(&f.map_labels(|_| (), |_| ()), &g.map_labels(|_| (), |_| ()), loc);
+        ohmc::props::c01::check_pair_over::<B, String, String>(&f.map_labels(|o| format!("w{}", o), |a| format!("x{}", 9 - a)), &g.map_labels(|o| format!("w{}", o), |a| format!("x{}", 9 - a)), loc);
+    }));
     if !quick {
         let l = Spec::open(3, 1, 2, 1, 1, 1, 2).universe().all_open();
         let r = Spec::open(3, 1, 2, 1, 1, 2, 1).universe().all_open();
